@@ -22,6 +22,7 @@ func mkhist(opName, file string) {
 	defer f.Close()
 	hb := newHistBuilder()
 	sc := bufio.NewScanner(f)
+	sc.Buffer(make([]byte, 1<<20), 1<<26)
 	num := func(s string) int { var n int; fmt.Sscan(s, &n); return n }
 	for sc.Scan() {
 		line := strings.TrimRight(sc.Text(), "\r")
